@@ -47,6 +47,8 @@ def legacy_specs(P: str = "G", runtime_only: bool = False) -> list[CS]:
         # child fields declared compare=False (still children: attached, counted into content ids, propagated through)
         CS(f"{P}Ann", (N,), [FS("target", "child", f"{N} | None", "opt", (N,), default="None"), FS("aside", "child", f"{N} | None", "opt", (N,), compare=False, default="None"), FS("extras", "child", f"tuple[{N}, ...]", "tuple", (N,), compare=False, default="()")]),
         # a leaf subclass that nevertheless has a child (fits narrowly typed fields such as Lst.opt)
+        # keyword-only child fields (field(kw_only=True)): children like any other
+        CS(f"{P}Kw", (N,), [FS("first", "child", f"{N} | None", "opt", (N,), default="None"), FS("body", "child", f"tuple[{N}, ...]", "tuple", (N,), kw_only=True, default="()"), FS("last", "child", f"{N} | None", "opt", (N,), kw_only=True, default="None"), FS("v", "prop", "int", "int", kw_only=True, default="0")]),
         CS(f"{P}Wrap", (f"{P}Leaf",), [FS("inner", "child", f"{N} | None", "opt", (N,), default="None")]),
         # a class that is not defined at module top level
         CS(f"{P}Inner", (N,), [FS("v", "prop", "int", "int", default="0"), FS("kid", "child", f"{N} | None", "opt", (N,), default="None")], local=True),
